@@ -191,3 +191,38 @@ def _deadline(fn, seconds):
     finally:
         signal.setitimer(signal.ITIMER_REAL, 0)
         signal.signal(signal.SIGALRM, old)
+
+
+class WorkerError(Exception):
+    """An exception that escaped a worker function, re-raised as a plain string (exception classes defined next to the
+    instrumented node classes cannot be unpickled in the parent process, which never imports anytree)."""
+
+
+def safe_worker(fn):
+    import functools
+    import traceback
+
+    @functools.wraps(fn)
+    def wrapper(*args, **kwargs):
+        try:
+            return fn(*args, **kwargs)
+        except BaseException as e:  # noqa
+            if isinstance(e, (KeyboardInterrupt, SystemExit)):
+                raise
+            raise WorkerError("%s: %s\n%s" % (type(e).__name__, e, traceback.format_exc()[-1500:])) from None
+
+    return wrapper
+
+
+def pmap(pool_, fn, jobs, timeout=None):
+    """pool.map with an upper time limit (a lost worker must not make the check wait forever)."""
+    import multiprocessing
+
+    from . import tlc as T
+
+    try:
+        return pool_.map_async(fn, jobs).get(timeout or int(os.environ.get("VERIF_POOL_TIMEOUT", "2400")))
+    except multiprocessing.TimeoutError:
+        raise T.MachineryError("a worker pool did not deliver its results within the time limit")
+    except WorkerError as e:
+        raise T.MachineryError("a replay worker failed: %s" % str(e)[:1500])
